@@ -97,15 +97,24 @@ func scalarOnly(v any) any {
 
 // fieldValue computes the value of a model field on an object: the shared
 // semantics of the monolith (R1 over D) and of every subgraph (R2).
-// requiresFrom is the object the @requires inputs are read from (the D object
-// in the monolith, the representation in a subgraph).
-func (u *Universe) fieldValue(t *Type, parent Obj, fname string, args map[string]any, requiresFrom map[string]any) (any, error) {
+// input supplies the value of a @requires input field (the monolith computes it
+// from D, recursively for inputs that are themselves computed; a subgraph takes
+// external inputs from the representation it was sent).
+func (u *Universe) fieldValue(t *Type, parent Obj, fname string, args map[string]any, input func(fn string) (any, bool)) (any, error) {
 	var mf *Field
 	if t != nil {
 		mf = t.Field(fname)
 	}
 	if mf != nil && mf.Requires != "" {
-		proj, ok := projectSel(requiresFrom, mf.Requires)
+		from := map[string]any{}
+		for _, fn := range selectionFieldNames(mf.Requires) {
+			v, ok := input(fn)
+			if !ok {
+				return nil, fmt.Errorf("@requires inputs %q missing", mf.Requires)
+			}
+			from[fn] = v
+		}
+		proj, ok := projectSel(from, mf.Requires)
 		if !ok {
 			return nil, fmt.Errorf("@requires inputs %q missing", mf.Requires)
 		}
@@ -157,10 +166,30 @@ func toInt(v any) int {
 type Mono struct{ U *Universe }
 
 func (m Mono) Resolve(pt *gast.Definition, parent Obj, f *gast.Field, args map[string]any, path []any) (any, error) {
+	t := m.U.S.Type(pt.Name)
 	if root, ok := m.U.Root[pt.Name]; ok && parent["__root"] == true {
-		return m.U.fieldValue(m.U.S.Type(pt.Name), root, f.Name, args, root)
+		return m.U.fieldValue(t, root, f.Name, args, m.U.monoInput(t, root))
 	}
-	return m.U.fieldValue(m.U.S.Type(pt.Name), parent, f.Name, args, parent)
+	return m.U.fieldValue(t, parent, f.Name, args, m.U.monoInput(t, parent))
+}
+
+// monoInput: the single server computes every @requires input itself.
+func (u *Universe) monoInput(t *Type, obj Obj) func(fn string) (any, bool) {
+	var in func(fn string) (any, bool)
+	in = func(fn string) (any, bool) {
+		if t != nil {
+			if mf := t.Field(fn); mf != nil && mf.Requires != "" {
+				v, err := u.fieldValue(t, obj, fn, nil, in)
+				if err != nil {
+					return nil, true // an input that failed is null
+				}
+				return v, true
+			}
+		}
+		v, ok := obj[fn]
+		return v, ok
+	}
+	return in
 }
 
 // RootObj is the root value handed to refexec for the monolith.
